@@ -171,7 +171,8 @@ Definition highest_used (l : list (option Z)) : Z :=
 
 Definition sd_do_open (d : sdst) (k : Z) : sdst * res :=
   match index_of (d_slots d) k 0 with
-  | Some _ => (d, RUnspec)
+  | Some _ => (* a second SDstart of a file that is open: outside the property; nothing about file k is predicted any more *)
+      (mkD (d_sys d) (d_size d) (d_maxopen d) (d_slots d) (filter (fun p => negb (fst p =? k)) (d_files d)), RUnspec)
   | None =>
     (* the open-file table: allocated on first use, grown to the system limit when full *)
     let d1 := if d_size d =? 0 then mkD (d_sys d) (d_maxopen d) (d_maxopen d) (d_slots d) (d_files d) else d in
